@@ -4,7 +4,8 @@ use gmsol_model::glv::{get_glv_value_for_market, get_market_token_amount_for_glv
 use gmsol_model::price::{Price, Prices};
 use gmsol_model::utils::{market_token_amount_to_usd, usd_to_market_token_amount};
 use gmsol_model::{LiquidityMarket, LiquidityMarketExt, LiquidityMarketMutExt, MarketAction, PnlFactorKind, SwapMarketMutExt};
-use h_model::market::TestMarket;
+use h_model::market::{TestMarket, TestPosition};
+use gmsol_model::{Balance, PositionMutExt};
 use hcommon::*;
 
 type M = TestMarket<u128, 20>;
@@ -46,6 +47,29 @@ fn main() {
             if r.chance(1, 3) { let _ = m.swap(r.chance(1, 2), r.range(1, 1000) as u128 * 1_000_000, pr).and_then(|s| s.execute()); }
         }
         pr = prices(&mut r);
+        // pending trader profit around the two pnl caps (deposit / withdrawal): only then do the pool values of the two
+        // pnl-factor kinds differ, i.e. only then does it matter WHICH kind each GLV pricing function uses
+        if r.chance(3, 5) {
+            let (dep, wd) = *r.pick(&[(60u128, 30u128), (60, 30), (30, 60), (50, 50), (80, 20), (45, 40)]);
+            m.config.max_pnl_factors.deposit = dep * 1_000_000_000_000_000_000;
+            m.config.max_pnl_factors.withdrawal = wd * 1_000_000_000_000_000_000;
+            let p0 = pr.index_token_price.max;
+            let long_value = m.primary.long_amount().ok().map(|a| a * pr.long_token_price.min).unwrap_or(0);
+            if long_value > 0 {
+                let size = long_value / 100 * r.range(40, 120) as u128;
+                let coll_tokens = (size / 5) / pr.long_token_price.min;
+                let mut pos = TestPosition::<u128, 20>::long(true);
+                let opened = pos.ops(&mut m).increase(pr, coll_tokens.max(1), size, None).and_then(|a| a.execute()).is_ok();
+                if opened {
+                    out.stat("state.position_opened");
+                    // target pnl as a percentage of the long pool value: below / between / above the caps
+                    let f = *r.pick(&[10u128, 25, 29, 31, 35, 42, 48, 55, 59, 61, 75]);
+                    let p1 = p0 + p0 * f / 100 * (long_value / 1_000_000) / (size / 1_000_000).max(1);
+                    let np = Price { min: p1, max: p1 + p1 * r.below(2) as u128 / 100 };
+                    pr = Prices { index_token_price: np, long_token_price: np, short_token_price: pr.short_token_price };
+                }
+            }
+        }
         let sup = m.total_supply();
         let pv = |m: &M, k: PnlFactorKind, mx: bool| m.pool_value(&pr, k, mx).ok();
         let (Some(pdmin), Some(pdmax), Some(pwmax)) = (pv(&m, PnlFactorKind::MaxAfterDeposit, false), pv(&m, PnlFactorKind::MaxAfterDeposit, true), pv(&m, PnlFactorKind::MaxAfterWithdrawal, true)) else { continue };
@@ -73,10 +97,20 @@ fn main() {
         if let Some(v) = v { let req = format!("glv amount {v} {pwmax} {sup} {DIV}"); let resp = opt(get_market_token_amount_for_glv_value(&pr, &m, v, true, DIV).ok()); out.case_nt(&req, &resp, resp != "ok 0"); done += 1; }
         // ---- property oracle: the round trip never returns more market tokens than deposited
         out.stat("roundtrip");
-        if gs > 0 { if let Some(o) = amt { if o > a { out.oracle_fail(&format!("GLV deposit of {a} market tokens followed by withdrawal returned {o}"), &req); } if o == a { out.stat("roundtrip.exact"); } } }
+        if gs > 0 { if let Some(o) = amt {
+            if o > a {
+                let (dc, wc) = (m.config.max_pnl_factors.deposit, m.config.max_pnl_factors.withdrawal);
+                // known finding F-C45-caps: only with the withdrawal pnl cap configured ABOVE the deposit cap (then the pay-out
+                // pool value can be below the valuation pool value — the hypothesis of `glv_roundtrip_no_gain` fails)
+                if wc > dc && pwmax < pdmin { out.known("F-C45-caps", &format!("GLV round trip gains market tokens ({a} -> {o}) with the withdrawal pnl cap above the deposit pnl cap"), &req); }
+                else { out.oracle_fail(&format!("GLV deposit of {a} market tokens followed by withdrawal returned {o} (pnl caps: deposit {dc}, withdrawal {wc})"), &req); }
+            }
+            if o == a { out.stat("roundtrip.exact"); }
+        } }
         // deposit valued maximised, withdrawal minimised: min <= max
         if pdmin > pdmax { out.oracle_fail("minimised pool value exceeds the maximised one", &req); }
         if pwmax < pdmin { out.stat("withdrawal_pool_value_below_deposit_value"); }
+        if pwmax != pdmax { out.stat("state.pnl_kinds_differ"); }
     }
     out.finish();
 }
